@@ -37,7 +37,7 @@ def exact_runs(rep, tier, rnd, traces, meta):
         groups = rnd.choice([None, None, [[0, 1]]])
         m = cls(n_clusters=2, gemini=path.scripted_gemini(script), max_iter=rnd.choice([1, 2, 3]), alpha=rnd.choice([0.25, 0.5, 1.0, 4.0]),
                 learning_rate=rnd.choice([0.5, 0.25, 1.0]), batch_size=rnd.choice([None, 2, 3, n]), dynamic=rnd.choice([False, False, True]),
-                groups=groups, random_state=rnd.randint(0, 9), **kw)
+                groups=groups, random_state=rnd.randint(0, 9), verbose=rnd.random() < 0.25, **kw)
         desc = dict(mode="exact", estimator=cls.__name__, n=n, d=d, script=[-1 if v is None else v for v in script[:L]], args=args,
                     alpha=m.alpha, lr=m.learning_rate, batch_size=m.batch_size, max_iter=m.max_iter, dynamic=m.dynamic, groups=groups)
         out = path.record_path(m, X, None, script=script, frac=dict(keep=keep, esf=esf), **args)
